@@ -282,3 +282,46 @@ def nontrivial(r, obs, events):
 
 def describe(p):
     return ["base=" + p["base"], "depth=%d" % len(p["layers"]), "subs=%d" % len(p["subs"])] + ["has_" + k for k in sorted(set(p["layers"]))]
+
+
+def extra(stats, tier, seed):
+    """API-level: a construction that FAILS in user code (a throttle count callable that raises when the constructor evaluates it; a retry
+    policy / poll arguments that make __init__ raise) creates no executor: exec_inprogress and exec_total stay what they were."""
+    import drive
+    import prometheus_client as pc
+    from more_executors import Executors
+    known_patterns = set(k["pattern"] for k in drive.load_known(PROP))
+
+    def viol(what, pattern, detail=None):
+        v = {"what": what, "pattern": pattern, "detail": detail, "case": {"params": {}, "chooser": "none", "cseed": 0, "origin": "api"}}
+        if pattern in known_patterns:
+            stats.known.setdefault(pattern, v)
+        else:
+            stats.violations.append(v)
+
+    def snap():
+        return {k: v for k, v in pc.REGISTRY.items() if "exec_inprogress" in str(k) or "exec_total" in str(k)}
+
+    def boom():
+        raise ValueError("count callable fails at construction time")
+    with det.atomic():
+        base = Executors.sync(name="c20x")
+        cases = [("throttle, count callable raising", lambda: base.with_throttle(boom)),
+                 ("timeout without a timeout", lambda: base.with_timeout()),
+                 ("map with a bad keyword", lambda: base.with_map(lambda x: x, no_such_keyword=1))]
+        for nm, build in cases:
+            before = snap()
+            try:
+                ex = build()
+            except Exception:
+                ex = None
+            stats.add([[20, 11, len(nm)]], True, None, ["api:failed-construction"])
+            if ex is not None:
+                ex.shutdown(False)
+                continue
+            after = snap()
+            if after != before:
+                diff = {str(k): (before.get(k, 0), after.get(k, 0)) for k in set(before) | set(after) if before.get(k, 0) != after.get(k, 0)}
+                viol("a failed construction (%s) changed the executor metrics although no executor exists: %s" % (nm, diff),
+                     "metrics:failed-construction", nm)
+        base.shutdown(False)
